@@ -116,3 +116,22 @@ PROPS["C15"] = {
                  "tiers": {"thorough": {"fuzztime": 180, "timeout": 400}}},
     },
 }
+
+PROPS["C20"] = {
+    "level": "exploration",
+    "technique": "property testing against an RFC 6052 bit-layout reference (embed/extract round trip, all six layouts) and a generated decision-table oracle through the dns64 handler with stub upstream and A-lookup queryer",
+    "level_text": ("embedIPv4/extractIPv4/validatePrefix/parseIP6ArpaName are compared with a reference that places the 32 address bits after the prefix skipping bits 64..71; through the handler, generated configurations (1-3 prefixes incl. illegal ones, client networks, excluded zones), "
+                   "client flags, upstream AAAA shapes (rcodes, EDE lists, CNAMEs, excluded AAAA, AD, SOA TTL/MINIMUM) and A shapes decide, by an independent gate table, whether synthesis may happen, which AAAA set is allowed, the TTL bound and AD=0; PTR names under the prefixes map back to in-addr.arpa. Exploration."),
+    "level_note": "Trusted: the harness's own RFC 6052 reference and gate table. The cache/resolver around dns64 are stubs. Completeness (synthesis does happen when allowed) is tracked as a class floor, not asserted.",
+    "rule": ("evaluations = generated cases. Non-trivial = synthesis happened, an excluded AAAA was filtered, or exactly one gate refused synthesis; embed cases with a legal prefix; every PTR case; distinct = hash(class, failed gates, prefix lengths, upstream rcode, A shape, EDE list)."),
+    "assumptions": ["truncated upstream replies are not generated (the property does not constrain them)"],
+    "units": {
+        "embed": {"pkg": "./middleware/dns64", "run": "^TestVerifC20Embed$",
+                  "tiers": {"quick": T(20000, 2, timeout=300), "thorough": T(500000, 4, timeout=3000)}},
+        "decision": {"pkg": "./middleware/dns64", "run": "^TestVerifC20Decision$",
+                     "tiers": {"quick": T(10000, 6, timeout=400), "thorough": T(300000, 10, timeout=3000)},
+                     "floors": {"C20.decision": {"synthesised": 0.03, "filtered": 0.02, "untouched": 0.2}}},
+        "ptr": {"pkg": "./middleware/dns64", "run": "^TestVerifC20PTR$",
+                "tiers": {"quick": T(6000, 2, timeout=300), "thorough": T(200000, 4, timeout=3000)}},
+    },
+}
